@@ -101,3 +101,123 @@ package engine
 //@ func (p *instancePool) startInstances#lit1
 //@ props C12
 //@ at call runNewInstance assert [own-id] arg(id) == id && arg(ctx) == runCtx
+
+// ---------------------------------------------------------------- pool run outcome (C05)
+
+//@ event wait_done
+
+//@ fieldfunc instancePool.onWaitDone
+//@ ensures ev(wait_done) == old(ev(wait_done)) + 1
+//@ modifies ev(wait_done)
+
+//@ fieldfunc instancePool.NewGun
+//@ ensures ev(gun_created) == old(ev(gun_created)) + 1
+//@ modifies ev(gun_created)
+
+//@ func (p *instancePool) warmUpGun
+//@ props C05
+//@ ensures [gun-creation-failure-is-reported] imp(result_of(p.NewGun, 1) != nil, result != nil && cause(result) == cause(result_of(p.NewGun, 1)))
+//@ ensures [warm-up-failure-is-reported] imp(result_of(p.NewGun, 1) == nil && calls(gunWithWarmUp.WarmUp) == 1 && result_of(gunWithWarmUp.WarmUp, 1) != nil, result != nil && cause(result) == cause(result_of(gunWithWarmUp.WarmUp, 1)))
+//@ ensures [success] imp(result == nil, result_of(p.NewGun, 1) == nil)
+//@ modifies p.sharedGunDeps, ev(gun_created)
+
+// The goroutine that waits for all tasks of a pool: the wait group is released exactly once, whatever happens.
+//@ func (p *instancePool) awaitRunAsync#lit0
+//@ props C05
+//@ requires !closed(ah.awaitErr) && p.onWaitDone != nil && ah.awaitErr != ah.runRes
+//@ requires ah.toWait == 4 && ah.providerErr != nil && ah.aggregatorErr != nil && ah.startRes != nil && ah.runRes != nil && !closed(ah.runRes)
+//@ may_panic true
+//@ ensures [wait-released-once] ev(wait_done) == old(ev(wait_done)) + 1
+//@ ensures [result-channel-closed] closed(ah.awaitErr)
+//@ panics ensures [wait-released-once] ev(wait_done) == old(ev(wait_done)) + 1
+
+//@ func (p *instancePool) Run
+//@ props C05
+//@ env p.onWaitDone != nil
+//@ ensures [wait-released-exactly-once] (ev(wait_done) - old(ev(wait_done))) + calls(p.awaitRunAsync) == 1
+//@ ensures [success-only-after-a-clean-await] imp(result == nil, calls(p.awaitRunAsync) == 1 && (!result_of(<-awaitErr, 1) || result_of(<-awaitErr, 0) == nil))
+//@ ensures [awaited-error-fails-the-pool] imp(calls(p.awaitRunAsync) == 1 && result_of(<-awaitErr, 1) && !done(ctx), result == result_of(<-awaitErr, 0))
+//@ ensures [warm-up-failure-fails-the-pool] imp(result_of(p.warmUpGun, 0) != nil, result == result_of(p.warmUpGun, 0))
+//@ ensures [start-failure-fails-the-pool] imp(calls(p.runAsync) == 1 && result_of(p.runAsync, 1) != nil, result == result_of(p.runAsync, 1))
+
+//@ func (ah *runAwaitHandle) isStartFinished
+//@ props C05
+//@ modifies nothing
+//@ ensures result == (ah.startRes == nil)
+
+// Property: a component error is never swallowed into a successful result.
+// Environment: the pool's Run is receiving from awaitErr until its own context is done.
+//@ func (ah *runAwaitHandle) onErrAwaited
+//@ props C05
+//@ env forall(t, sendready(ah.awaitErr, t) == (doneAt(ah.poolCtx) > t))
+//@ ensures [delivered-unless-pool-cancelled] sent(ah.awaitErr) == old(sent(ah.awaitErr)) + 1 || done(ah.poolCtx)
+//@ ensures [at-most-once] sent(ah.awaitErr) - old(sent(ah.awaitErr)) <= 1
+//@ at send ah.awaitErr assert [the-error-itself] value == err
+//@ modifies chanSent[ah.awaitErr]
+
+//@ func (ah *runAwaitHandle) checkAllInstancesAreFinished
+//@ props C05
+//@ ghost all = ah.startRes == nil && ah.awaitedInstances >= ah.startedInstances
+//@ requires imp(all, ah.runRes != nil && !closed(ah.runRes))
+//@ may_panic true
+//@ ghost unused = ah.startRes == nil && ah.awaitedInstances >= ah.startedInstances
+//@ ensures [only-when-all-finished] imp(!all, ah.runRes == old(ah.runRes) && ah.toWait == old(ah.toWait) && calls(ah.runCancel) == 0 && closed(ah.runRes) == old(closed(ah.runRes)))
+//@ ensures [run-results-closed-once] imp(all, closed(old(ah.runRes)) && ah.runRes == nil && ah.toWait == old(ah.toWait) - 1 && calls(ah.runCancel) == 1)
+//@ modifies ah.runRes, ah.toWait, chanClosed[ah.runRes]
+
+//@ func (p *instancePool) runAsync
+//@ props C05
+//@ ensures [handle] imp(result1 == nil, result0.poolCtx == runCtx0 && parent(result0.runCtx) == runCtx0 && parent(result0.instanceStartCtx) == result0.runCtx)
+//@ ensures [three-tasks] imp(result1 == nil, ev(spawn) == old(ev(spawn)) + 3)
+//@ ensures [channels] imp(result1 == nil, result0.providerErr != nil && result0.aggregatorErr != nil && result0.startRes != nil && result0.runRes != nil && !closed(result0.runRes))
+//@ ensures [failure-starts-nothing] imp(result1 != nil, result0 == nil && ev(spawn) == old(ev(spawn)))
+//@ ensures [schedule-failure-is-reported] imp(result_of(p.buildNewInstanceSchedule, 1) != nil, result1 == result_of(p.buildNewInstanceSchedule, 1))
+//@ modifies ev(spawn)
+
+//@ func (p *instancePool) buildNewInstanceSchedule
+//@ props C05 C12 C03
+//@ modifies nothing
+//@ ensures [per-instance-schedules] imp(p.RPSPerInstance, result1 == nil && result0 == p.NewRPSSchedule)
+//@ ensures [shared-schedule-failure] imp(!p.RPSPerInstance && result_of(p.NewRPSSchedule, 1) != nil, result1 == result_of(p.NewRPSSchedule, 1))
+//@ ensures [shared-schedule-created-once] imp(!p.RPSPerInstance, calls(p.NewRPSSchedule) == 1)
+
+// The factory handed to instances when the RPS schedule is shared: every call returns the same wrapped schedule.
+//@ func (p *instancePool) buildNewInstanceSchedule#lit1
+//@ props C03 C12
+//@ modifies nothing
+//@ ensures [same-shared-schedule] result0 == sharedRPSSchedule && result1 == err
+
+//@ func (ah *runAwaitHandle) awaitRun
+//@ props C05
+//@ requires ah.toWait == ite(ah.providerErr != nil, 1, 0) + ite(ah.aggregatorErr != nil, 1, 0) + ite(ah.startRes != nil, 1, 0) + ite(ah.runRes != nil, 1, 0)
+//@ requires imp(ah.runRes != nil, !closed(ah.runRes)) && imp(ah.startRes != nil, ah.runRes != nil)
+//@ may_panic true
+//@ loop 0 invariant imp(ah.startRes != nil, ah.runRes != nil) && (ah.runRes == nil || ah.runRes == old(ah.runRes))
+//@ loop 0 invariant [outstanding-results] ah.toWait == ite(ah.providerErr != nil, 1, 0) + ite(ah.aggregatorErr != nil, 1, 0) + ite(ah.startRes != nil, 1, 0) + ite(ah.runRes != nil, 1, 0)
+//@ loop 0 invariant imp(ah.runRes != nil, !closed(ah.runRes))
+//@ loop 0 step [every-result-is-examined] calls(errutil.IsCtxError) - iter(calls(errutil.IsCtxError)) == 1 || result_of(<-ah.runRes, 0).Err == outOfAmmoErr
+//@ loop 0 step [real-failure-is-reported] imp(calls(errutil.IsCtxError) - iter(calls(errutil.IsCtxError)) == 1 && !result_of(errutil.IsCtxError, 0), calls(ah.onErrAwaited) - iter(calls(ah.onErrAwaited)) == 1)
+//@ ensures [all-awaited] ah.toWait <= 0 && ah.providerErr == nil && ah.aggregatorErr == nil && ah.startRes == nil && ah.runRes == nil
+//@ at call ah.onErrAwaited#0 assert [provider-cause] cause(arg(err)) == cause(err)
+//@ at call ah.onErrAwaited#1 assert [aggregator-cause] cause(arg(err)) == cause(err)
+//@ at call ah.onErrAwaited#2 assert [start-cause] cause(arg(err)) == cause(res.Err)
+//@ at call ah.onErrAwaited#3 assert [instance-cause] cause(arg(err)) == cause(res.Err)
+//@ at call errutil.IsCtxError#0 assert [provider-error-examined] arg(err) == err && arg(ctx) == ah.runCtx
+//@ at call errutil.IsCtxError#1 assert [aggregator-error-examined] arg(err) == err && arg(ctx) == ah.runCtx
+//@ at call errutil.IsCtxError#2 assert [start-error-examined] arg(err) == res.Err
+//@ at call errutil.IsCtxError#3 assert [instance-error-examined] arg(err) == res.Err && arg(ctx) == ah.runCtx
+//@ modifies ah.providerErr, ah.aggregatorErr, ah.startRes, ah.runRes, ah.toWait, ah.startedInstances, ah.awaitedInstances, chanSent[ah.awaitErr], chanClosed[ah.runRes]
+
+//@ func (p *instancePool) newAwaitRunHandle
+//@ props C05
+//@ modifies nothing
+//@ ensures fresh(result0) && result0.awaitErr == result1 && !closed(result1) && fresh(result1) && result0.toWait == 4
+//@ ensures result0.providerErr == runHandle.providerErr && result0.aggregatorErr == runHandle.aggregatorErr && result0.startRes == runHandle.startRes && result0.runRes == runHandle.runRes
+//@ ensures result0.poolCtx == runHandle.poolCtx && result0.runCtx == runHandle.runCtx
+
+//@ func (p *instancePool) awaitRunAsync
+//@ props C05
+//@ requires p.onWaitDone != nil
+//@ requires runHandle.providerErr != nil && runHandle.aggregatorErr != nil && runHandle.startRes != nil && runHandle.runRes != nil && !closed(runHandle.runRes)
+//@ modifies ev(spawn)
+//@ ensures [await-goroutine-started] ev(spawn) == old(ev(spawn)) + 1 && !closed(result)
